@@ -28,6 +28,14 @@ REACH = [
 ]
 ASSUMPTIONS = ["torch autograd (reference gradient) and torch.optim.SGD arithmetic",
                "mixed states: -log(p~+1e-8) or -log p~ accepted for the positive phase"]
+
+
+def CONCLUSIVE(counters):
+    if counters.get("named_gradients_compared", 0) == 0:
+        return ["no optimizer step could be reconstructed at the public boundaries"]
+    return []
+
+
 MIN_PER_WORKER = 1
 TAU = 3e-9
 
@@ -165,10 +173,14 @@ def one_run(case, ctx, cfg, st, kind, nv, rows, bases, data, shared, am, ph, lab
                 seg.append(evs[j])
                 j += 1
             types = [x["type"] for x in seg]
-            if types.count("cbg_call") != 1 or types.count("opt_step") != 1 or types.count("gibbs_call") != 1:
-                ctx.violation("batch-protocol", f"between batch_start and batch_end: {types.count('cbg_call')} gradient calls, "
-                              f"{types.count('gibbs_call')} Gibbs calls, {types.count('opt_step')} optimizer steps (expected 1 each)",
-                              tags=tags, witness=wit)
+            if types.count("opt_step") != 1:
+                ctx.violation("batch-protocol", f"between batch_start and batch_end: {types.count('opt_step')} optimizer steps (the "
+                              "parameters must move once per batch)", tags=tags, witness=wit)
+            elif types.count("cbg_call") != 1 or types.count("gibbs_call") != 1:
+                # the batch and the chain end state are learnt at the public compute_batch_gradients / gibbs_steps
+                # boundaries; if training no longer goes through them (exactly once) this step cannot be reconstructed
+                ctx.count("batches_not_observable_at_the_public_boundaries")
+                nsteps += 1
             else:
                 check_step(ctx, cfg, seg, kind, nv, units, lr_expected, tags, wit)
                 nsteps += 1
